@@ -20,7 +20,12 @@ fn main() {
     let index = before.lines().count() + 1;
     let mine_before = before.lines().filter(|l| l.split(' ').next() == Some(name.as_str())).count();
     let is_pack_build = name == "pack" && words.first() == Some(&&b"build"[..]);
-    let mut code = 0;
+    // what the tool prints, and with which status an injected failure ends, are dimensions of the scenarios:
+    // STANDIN_FAIL_STATUS = exit status of the injected failure (or `sig`: die by a signal), STANDIN_FLAVOUR = 0..3 selects the
+    // texts (container id, `docker port` output, stdout/stderr of a failing command); flavour 3 prints the two-line
+    // `docker port` output of a dual-stack host, which libcnb-test cannot parse.
+    let flavour: usize = std::env::var("STANDIN_FLAVOUR").ok().and_then(|s| s.parse().ok()).unwrap_or(0);
+    let mut code: Option<String> = None;
     if is_pack_build {
         // snapshot of the app directory pack is pointed at
         if let Some(i) = words.iter().position(|w| *w == b"--path") {
@@ -32,9 +37,11 @@ fn main() {
         }
         let j = before.lines().filter(|l| l.starts_with("pack h6275696c64")).count();
         let results = std::env::var("STANDIN_PACK_BUILD_RESULTS").unwrap_or_default();
-        if results.split(',').nth(j) == Some("1") { code = 1; }
+        if results.split(',').nth(j) == Some("1") { code = Some(["1", "2", "255", "51"][flavour % 4].to_string()); }
     }
-    if std::env::var("STANDIN_FAIL_AT").ok().and_then(|s| s.parse::<usize>().ok()) == Some(index) { code = 7; }
+    if std::env::var("STANDIN_FAIL_AT").ok().and_then(|s| s.parse::<usize>().ok()) == Some(index) {
+        code = Some(std::env::var("STANDIN_FAIL_STATUS").unwrap_or_else(|_| "7".into()));
+    }
     if let Ok(g) = std::env::var("STANDIN_GONE") {
         if let Some((prog, n)) = g.split_once(':') {
             if prog == name && n.parse::<usize>().ok() == Some(mine_before + 2) {
@@ -42,14 +49,29 @@ fn main() {
             }
         }
     }
+    let out = std::io::stdout();
+    let mut out = out.lock();
     if name == "docker" {
         match words.first().map(|w| &w[..]) {
-            Some(b"port") => println!("127.0.0.1:12345"),
-            Some(b"run") if words.iter().any(|w| *w == b"--detach") => println!("0123456789abcdef"),
-            Some(b"logs") => { println!("log line"); eprintln!("err line"); }
-            _ => println!("ok"),
+            Some(b"port") => out.write_all([&b"127.0.0.1:12345\n"[..], b"  0.0.0.0:49153 \n\n", b"[::1]:8080", b"0.0.0.0:49153\n[::]:49153\n"][flavour % 4]).unwrap(),
+            Some(b"run") if words.iter().any(|w| *w == b"--detach") =>
+                out.write_all([&b"0123456789abcdef\n"[..], b"f2a1c0ffee00f2a1c0ffee00f2a1c0ffee00f2a1c0ffee00f2a1c0ffee00f2a1\n", b"", b"WARNING: platform mismatch\nabc\n"][flavour % 4]).unwrap(),
+            Some(b"logs") => { out.write_all([&b"log line\n"[..], b"", b"\xff\xfe not utf-8\n", b"Error: No such container\n"][flavour % 4]).unwrap(); eprintln!("err line"); }
+            _ => out.write_all([&b"ok\n"[..], b"", b"libcnbtest_abcdefghijkl\n", b"deleted\n"][flavour % 4]).unwrap(),
         }
-    } else { println!("pack output"); }
-    if code != 0 { eprintln!("stand-in: injected failure"); }
-    std::process::exit(code);
+    } else { out.write_all([&b"pack output\n"[..], b"", b"\xc3\x28\n", b"Successfully built image\n"][flavour % 4]).unwrap(); }
+    out.flush().unwrap();
+    if let Some(c) = code {
+        let who = String::from_utf8_lossy(words.get(1).copied().unwrap_or(b"x")).to_string();
+        let msgs = [
+            "stand-in: injected failure".to_string(),
+            format!("Error response from daemon: No such container: {who}"),
+            "docker: Error response from daemon: driver failed programming external connectivity on endpoint x: Bind for 0.0.0.0:80 failed: port is already allocated.".to_string(),
+            String::new(),
+        ];
+        eprint!("{}", msgs[flavour % 4]);
+        if flavour % 4 == 2 { std::io::stderr().write_all(b"\xff\n").unwrap(); }
+        if c == "sig" { std::process::abort(); }
+        std::process::exit(c.parse().unwrap_or(7));
+    }
 }
